@@ -22,7 +22,7 @@ ALL_FEATURES = [
 class Profile(object):
     def __init__(self, allowed, weights=None, required=(), numeric="grid", max_nodes=3, max_classes=3,
                  plans=("max_time",), horizon=(4.0, 16.0), budget=600, max_c=3, caps=(0, 1, 2, 3),
-                 resumptions=(1, 3), load="mixed", excluded=(), seq_len=5, require_any=(), stay=0.0):
+                 resumptions=(1, 3), load="mixed", excluded=(), seq_len=5, require_any=(), stay=0.0, finite_arrivals=0.0):
         self.allowed = set(allowed)
         self.weights = dict(weights or {})
         self.required = set(required)
@@ -40,6 +40,7 @@ class Profile(object):
         self.excluded = tuple(excluded)     # names of known-finding exclusion predicates to apply
         self.seq_len = seq_len
         self.stay = stay                    # probability that a transition-matrix row has no exit share
+        self.finite_arrivals = finite_arrivals      # probability that an arrival stream is finite (Sequential ending in inf)
 
     def w(self, f, default=0.3):
         if f not in self.allowed:
@@ -84,7 +85,10 @@ def grid_value(draw, prof, positive=True, grid=None):
     g = grid or (DEC_GRID if prof.numeric == "decgrid" else GRID)
     if not positive and _flag(draw, 0.1):
         return 0.0
-    return draw(st.sampled_from(g))
+    v = draw(st.sampled_from(g))
+    if prof.numeric == "jitter":
+        v = v + draw(st.integers(0, 7)) * 1e-13       # distinct dates that differ by less than 1e-12: near-ties, not ties
+    return v
 
 
 def dist_grid(draw, prof, role):
@@ -148,6 +152,14 @@ def dist_cont(draw, prof, role):
 
 
 def dist(draw, prof, role):
+    if role == "arrival" and prof.finite_arrivals and _flag(draw, prof.finite_arrivals):
+        # a finite arrival process: Sequential ending in inf (the stream runs out and the system drains)
+        k = draw(st.integers(2, 8))
+        if prof.numeric in ("cont",):
+            vals = [round(draw(st.floats(0.05, 1.5, allow_nan=False)), 6) + 1e-7 * (i + 1) for i in range(k)]
+        else:
+            vals = [grid_value(draw, prof) for _ in range(k)]
+        return ["seq", vals + ["inf"]]
     if prof.numeric == "cont":
         return dist_cont(draw, prof, role)
     if prof.numeric == "mixed" and _flag(draw, 0.5):
@@ -414,6 +426,10 @@ def netspec(draw, prof):
         spec["deadlock"] = True
     spec["seed"] = draw(st.integers(0, 10 ** 6))
     spec["plan"] = plan(draw, prof)
+    if spec["plan"]["kind"] != "max_time" and any(a is not None and a[0] == "seq" and a[1] and a[1][-1] == "inf" for c in classes for a in c["arrival"]):
+        # a finite arrival process may never reach a customer count or a deadlock: such plans would loop at t = inf
+        for c in classes:
+            c["arrival"] = [a if not (a is not None and a[0] == "seq" and a[1][-1] == "inf") else ["seq", a[1][:-1]] for a in c["arrival"]]
     spec["event_budget"] = prof.budget * (2 if _thorough() else 1)
     if prof.excluded:
         import os
@@ -478,7 +494,7 @@ def plan(draw, prof):
     if kind == "max_time":
         k = draw(st.integers(*prof.resumptions))
         ts = sorted(set(draw(st.lists(st.integers(int(lo * 4), int(hi * 4)), min_size=k, max_size=k))))
-        if prof.numeric == "cont":
+        if prof.numeric in ("cont", "jitter"):
             # irrational-ish split points: never equal to a generated event date
             return {"kind": "max_time", "T": [round(t / 4.0 + 0.0137, 4) for t in ts]}
         return {"kind": "max_time", "T": [t / 4.0 for t in ts]}
